@@ -140,6 +140,8 @@ def make_case(rnd, *, kind, rkind, signed, flag, n_utxo, num, den, fee, version,
     for i in range(n_utxo):
         sat = amounts[i] if amounts else rnd.choice(FLOAT_HOSTILE + [rnd.randrange(2000, 5 * 10**9)])
         utxos.append({"txid": rnd.randbytes(32), "vout": vouts[i] if vouts else rnd.randrange(0, 6), "sat": sat})
+    req = sum(u["sat"] for u in utxos) * num // den
+    fee = min(fee, req)
     return dict(snd=snd, raddr=raddr, rspk=rspk, caddr=caddr, cspk=cspk, utxos=utxos, signed=signed, flag=flag, num=num, den=den,
                 fee=fee, version=version, lock=lock, kind=kind, rkind=rkind, change=change or "sender")
 
@@ -197,6 +199,9 @@ def run_case(case):
     return ev, cls
 
 
+FRACS = [(1, 1), (1, 1), (1, 2), (1, 4), (3, 4), (1, 8), (7, 8)]
+
+
 def gen_cases(ctx, rnd):
     quick = ctx.tier == "quick"
     cases = []
@@ -209,7 +214,7 @@ def gen_cases(ctx, rnd):
     # 2. unsigned: conservation over float-hostile amounts, several utxos, all recipient kinds, fractions
     for i in range(12 if quick else 400):
         cases.append(make_case(rnd, kind=rnd.choice(["p2pkh-c", "p2wpkh", "p2sh", "p2pk"]), rkind=rk[i % len(rk)], signed=False, flag=1,
-                               n_utxo=rnd.randint(1, 6), num=rnd.choice([1, 1, 1, 3, 1]), den=rnd.choice([1, 2, 4, 4, 8]),
+                               n_utxo=rnd.randint(1, 6), **dict(zip(("num", "den"), rnd.choice(FRACS))),
                                fee=rnd.choice([0, 1, 250, 1000, 1999]), version=rnd.choice([1, 2]), lock=rnd.choice([0, 500000, 2**32 - 1]),
                                change=rnd.choice([None, None, "p2wpkh", "p2pkh"]), m=1, n=2))
     # 3. signed segwit kinds: output index != position, several inputs, all flags, version 2, locktime
@@ -217,7 +222,7 @@ def gen_cases(ctx, rnd):
     for i in range(10 if quick else 300):
         kind = seg[i % 4]
         cases.append(make_case(rnd, kind=kind, rkind=rk[(i * 3) % len(rk)], signed=True, flag=FLAGS[i % 6], n_utxo=rnd.randint(1, 3),
-                               num=rnd.choice([1, 1, 3]), den=rnd.choice([1, 2, 4]), fee=rnd.choice([0, 500, 1000]),
+                               **dict(zip(("num", "den"), rnd.choice(FRACS))), fee=rnd.choice([0, 500, 1000]),
                                version=rnd.choice([1, 2]), lock=rnd.choice([0, 0, 650000]), change=rnd.choice([None, "p2wpkh"]),
                                m=rnd.choice([1, 2]), n=rnd.choice([2, 3])))
     # 4. signed legacy kinds: single input for every flag; and multi-input / SINGLE-with-change (known hard cases)
@@ -236,24 +241,30 @@ def _stage_a(ctx):
     ctx.stage_a("MC_Send.cfg", r, constants="Amounts={0,1,999,1000,1001,2500,5000} MaxUtxos=3 Fees={0,1,250}; sighash: 6 flags x 1..3 ins/outs x idx 0..2")
 
 
-def _stage_b(ctx, rnd):
-    """Build cases of the bounded model replayed into the real send_tx (unsigned): the returned transaction must satisfy
-    the same clauses; inputs/outputs identical to the spec's SendBuild skeleton is recorded as information."""
+def _stage_b_draws(ctx, rnd):
     import itertools
 
     amounts = [0, 1, 999, 1000, 1001, 2500, 5000]
     combos = [c for k in (1, 2, 3) for c in itertools.product(amounts, repeat=k)]
     if ctx.tier == "quick":
         combos = rnd.sample(combos, 60)
-    evs, clss = [], []
+    cases = []
     for amts in combos:
         for (num, den) in [(1, 4), (1, 2), (3, 4), (1, 1)]:
             fee = rnd.choice([0, 1, 250])
             total = sum(amts)
             if total * num // den < fee or total == 0:
                 continue
-            case = make_case(rnd, kind="p2pkh-c", rkind="p2pkh", signed=False, flag=1, n_utxo=len(amts), num=num, den=den, fee=fee,
-                             version=2, lock=0, change="p2wpkh", amounts=list(amts))
+            cases.append(make_case(rnd, kind="p2pkh-c", rkind="p2pkh", signed=False, flag=1, n_utxo=len(amts), num=num, den=den, fee=fee,
+                                   version=2, lock=0, change="p2wpkh", amounts=list(amts)))
+    return cases
+
+
+def _stage_b(ctx, rnd):
+    """Build cases of the bounded model replayed into the real send_tx (unsigned): the returned transaction must satisfy
+    the same clauses."""
+    evs, clss = [], []
+    for case in _stage_b_draws(ctx, rnd):
             ev, cls = run_case(case)
             ev["id"] = len(evs)
             evs.append(ev)
@@ -302,6 +313,31 @@ def run(ctx):
     ctx.sample({"stage": "C", "case": clss[0]})
 
 
+KEYF = ("sender_kind", "recipient_kind", "change_kind", "signed", "flag", "amounts", "vouts", "fraction", "fee", "version", "locktime", "m", "n")
+
+
 def replay(ctx, path):
-    raise vlib.MachineryFailure("C16 replay: re-run the check with the recorded VERIF_SEED (cases are regenerated deterministically); "
-                                "the replay file carries the classifier fields and the returned transaction")
+    """Cases are regenerated deterministically from the recorded seed/tier; those whose classifier fields equal a recorded
+    failing case are re-executed against the current tree and re-judged by TLC."""
+    doc = json.load(open(path))
+    want = {json.dumps([c["case"].get(k) for k in KEYF]) for c in doc["cases"] if c["case"].get("stage") == "C"}
+    ctx.seed, ctx.tier = doc["seed"], doc["tier"]
+    rnd = random.Random(ctx.seed * 7477 + 16)
+    _ = [rnd.random() for _ in range(0)]
+    import itertools
+    # consume the generator state exactly as run() does before gen_cases (stage B draws)
+    class _Null:
+        def __getattr__(self, k):
+            return lambda *a, **kw: None
+    _stage_b_draws(ctx, rnd)
+    cases = gen_cases(ctx, rnd)
+    sel = []
+    for case in cases:
+        ev, cls = run_case(case)
+        if json.dumps([cls.get(k) for k in KEYF]) in want:
+            sel.append(case)
+    ctx.rule = "replay of recorded failing cases (regenerated from seed)"
+    if not sel:
+        raise vlib.MachineryFailure("replay: no regenerated case matches the recorded ones (different harness version?)")
+    evs, clss, stats = _judge(ctx, sel, "c16r")
+    ctx.stage_c("Trace_Send replay", len(evs), stats)
